@@ -192,14 +192,33 @@ class DebugInfo:
                                 end_offset)
             else:
                 # there should have been an empty block marker inside.
-                for addr in self.empty_blocks:
-                    if start_offset <= addr < end_offset:
-                        add_node_record(block.start_stmt,
-                                        start_offset,
-                                        addr)
-                        add_node_record(block.end_stmt,
-                                        addr,
-                                        end_offset)
+                markers = [
+                    addr for addr in self.empty_blocks
+                    if start_offset <= addr < end_offset
+                ]
+                if not markers:
+                    # no marker: the body consists of statements that
+                    # generate no code (CONST, DIM, labels); the code
+                    # of the block is split where they are. A block
+                    # without any body (SELECT without CASE) belongs
+                    # to its start statement as a whole.
+                    inner = [
+                        stmt.start_offset for stmt in self.stmts
+                        if stmt.end_offset == stmt.start_offset and
+                        start_offset <= stmt.start_offset <= end_offset and
+                        block.loc_start is not None and
+                        stmt.source_start_offset is not None and
+                        block.loc_start <= stmt.source_start_offset <
+                        block.loc_end
+                    ]
+                    markers = [min(inner) if inner else end_offset]
+                for addr in markers:
+                    add_node_record(block.start_stmt,
+                                    start_offset,
+                                    addr)
+                    add_node_record(block.end_stmt,
+                                    addr,
+                                    end_offset)
 
         self.stmts.sort(key=lambda r: r.start_offset)
 
